@@ -140,6 +140,7 @@ type Ctx struct {
 	usedAxioms map[string]bool
 	external map[string]bool
 	qhyps []qhyp
+	nonNil map[string]bool
 	skTuples [][]SVal
 	inlining map[*ssa.Function]int
 }
